@@ -301,8 +301,22 @@ func (ns *Namespace) AddAlias(aliasType string, aliasName string, alias string) 
 	if aliasType == "const" {
 		ns.Aliases[aliasType][alias] = aliasName
 	} else {
-		ns.Aliases[aliasType][strings.ToLower(alias)] = aliasName
+		ns.Aliases[aliasType][lowerASCII(alias)] = aliasName
 	}
+}
+
+// lowerASCII folds the letters A-Z only, as PHP does for class and function
+// names: bytes >= 0x80 are part of a name whatever the encoding of the source
+// (strings.ToLower also folds non-ASCII letters and replaces bytes that are
+// not valid UTF-8, which makes different names collide).
+func lowerASCII(s string) string {
+	b := []byte(s)
+	for i, c := range b {
+		if 'A' <= c && c <= 'Z' {
+			b[i] = c + 'a' - 'A'
+		}
+	}
+	return string(b)
 }
 
 // ResolveName returns a resolved fully qualified name
@@ -381,11 +395,11 @@ func (ns *Namespace) ResolveAlias(nameNode ast.Vertex, aliasType string) (string
 	firstPartStr := string(nameParts[0].(*ast.NamePart).Value)
 
 	if len(nameParts) > 1 { // resolve aliases for qualified names, always against class alias type
-		firstPartStr = strings.ToLower(firstPartStr)
+		firstPartStr = lowerASCII(firstPartStr)
 		aliasType = ""
 	} else {
 		if aliasType != "const" { // constants are case-sensitive
-			firstPartStr = strings.ToLower(firstPartStr)
+			firstPartStr = lowerASCII(firstPartStr)
 		}
 	}
 
